@@ -90,7 +90,7 @@ def table_ok(T):
 
 
 def gen_key(rng, maxw=3):
-    n = rng.choice([1, 1, 1, 2, 2, 3][:3 + maxw])
+    n = 1 if maxw <= 1 else rng.choice([1, 1, 1, 2, 2, 3][:3 + maxw])
     while True:
         ws = [rng.choice(KEY_WORDS) for _ in range(n)]
         k = ' '.join(ws)
